@@ -12,3 +12,9 @@ package leafref
 //@ func (*leafrefLex).IsNameChar
 //@   nopanic
 //@   ensures result == rfc_idchar(c)
+
+// Compiling a leafref path yields a machine or an error, never neither (body not verified here).
+//@ func NewLeafrefMachine
+//@   assumed
+//@   modifies *
+//@   ensures (result1 == nil) == (result0 != nil)
